@@ -30,6 +30,20 @@ maybe theorem tie_iter_advance_back_by (it : Iter) (count : Nat) (s : Sys) :
 maybe theorem tie_iter_len (it : Iter) (s : Sys) : Gen.Iter_len it s = Iter.len it s := by
   tie [Gen.Iter_len, Iter.len]
 
+maybe theorem tie_iter_next (it : Iter) (s : Sys) : Gen.Iter_next it s = (.ok (Iter.next it), s) := by
+  first
+  | rfl
+  | (obtain ⟨⟨ro, rl⟩, ⟨lo, ll⟩⟩ := it
+     simp only [Gen.Iter_next, Iter.next, View.takeFirst, pure_run, bind_run]
+     by_cases h1 : rl > 0 <;> by_cases h2 : ll > 0 <;> simp [h1, h2, pure_run] <;> rfl)
+
+maybe theorem tie_iter_next_back (it : Iter) (s : Sys) : Gen.Iter_next_back it s = (.ok (Iter.nextBack it), s) := by
+  first
+  | rfl
+  | (obtain ⟨⟨ro, rl⟩, ⟨lo, ll⟩⟩ := it
+     simp only [Gen.Iter_next_back, Iter.nextBack, View.takeLast, pure_run, bind_run]
+     by_cases h1 : rl > 0 <;> by_cases h2 : ll > 0 <;> simp [h1, h2, pure_run] <;> rfl)
+
 maybe theorem tie_iter_new (s : Sys) (h : Inv s.buf) : Gen.Iter_new s = Iter.new s := by
   tie2 h [Gen.Iter_new, Iter.new]
 
